@@ -1,7 +1,7 @@
 (* Dispatch.v -- one command in, one observation out.  The same function is
    extracted to OCaml (model driver) and can be evaluated inside Coq
    (extraction cross-check).  Commands mirror harness/src/bin/impl_driver.rs. *)
-From MsiModel Require Import Base Sexp Timestamp.
+From MsiModel Require Import Base Sexp Timestamp Language.
 Open Scope string_scope.
 
 Record state := { st_dummy : unit }.
@@ -12,6 +12,8 @@ Definition pure_cmd (name : string) (args : list sx) : option sx :=
   | "time_from", [SI t] => Some (SI (from_time t))
   | "time_to", [SI k] => Some (SI (to_time k))
   | "time_rt", [SI t] => Some (SI (to_time (from_time t)))
+  | "lang_from_tag", [t] => option_map (fun t => sx_N (from_tag t)) (as_str t)
+  | "lang_tag", [c] => option_map (fun c => sx_str (tag_of c)) (as_N c)
   | _, _ => None
   end.
 
